@@ -141,7 +141,7 @@ class Pipeline:
             raise AnalysisError('from_visibility returns a grid expression, not the local '
                                 'observation grid')
         self.grid_name = self.ret_grid.id
-        d = w.single_def(self.grid_name)
+        d = w.sole_binding(self.grid_name)
         if d is None or d[0] != 'value':
             raise AnalysisError(f'from_visibility: `{self.grid_name}` is not assigned once')
         self.grid_def = w.expand(d[1], self.ren)
